@@ -13,10 +13,10 @@ import vlib
 
 MODEL = {"quick": dict(MaxN=3, MaxV=3, MaxC=2), "thorough": dict(MaxN=5, MaxV=2, MaxC=2)}
 MODEL3 = {"quick": None, "thorough": dict(MaxN=4, MaxV=2, MaxC=3)}
-GEN = {"quick": dict(GnbN=4, MnbN=2, KmN=3, FtRows=1), "thorough": dict(GnbN=5, MnbN=3, KmN=5, FtRows=2)}
+GEN = {"quick": dict(GnbN=4, MnbN=2, KmN=3, FtRows=1), "thorough": dict(GnbN=5, MnbN=3, KmN=4, FtRows=2)}
 # per family: sizes up to COMPLETE are kept completely, every larger enumerated size is a seeded sample of KEEP cases
-COMPLETE = {"quick": dict(gnb=3, mnb=1, kmeans=2, ftrl=1), "thorough": dict(gnb=3, mnb=2, kmeans=3, ftrl=2)}
-KEEP = {"quick": dict(gnb=500, mnb=700, kmeans=500, ftrl=0), "thorough": dict(gnb=5000, mnb=6000, kmeans=4000, ftrl=0)}
+COMPLETE = {"quick": dict(gnb=3, mnb=1, kmeans=1, ftrl=1), "thorough": dict(gnb=3, mnb=2, kmeans=2, ftrl=2)}
+KEEP = {"quick": dict(gnb=500, mnb=700, kmeans=600, ftrl=0), "thorough": dict(gnb=5000, mnb=6000, kmeans=4000, ftrl=0)}
 RANDOM = {"quick": dict(gnb=300, mnb=250, kmeans=300, ftrl=300), "thorough": dict(gnb=3000, mnb=2500, kmeans=3000, ftrl=3000)}
 INVS = ["InvGaussian", "InvPriors", "InvMultinomial", "InvKMeans", "InvKmCount", "InvRelations", "FtFactsOnce"]
 TRACE_CONST = dict(MaxN=0, MaxV=0, MaxC=1)
@@ -114,9 +114,10 @@ def random_kmeans(ctx, count, thorough):
         for cc in cuts:
             batches.append(pts[s:s + cc])
             s += cc
-        tol = r.choice([R(1, 2), R(1), R(2), R(3), R(5), R(1, 10), R(3, 2), R(10)])
+        tol = r.choice([R(1, 2), R(3, 4), R(1, 4), R(1, 10), R(3, 2), R(5, 2), R(7, 2), R(1), R(2), R(3), R(5), R(10)])
+        metric = r.choice(["l2", "l2", "l1", "l1", "linf"])
         out.append({"kind": "kmeans", "inp": {"d": d, "k": k, "init": init, "cent": cent, "nruns": r.choice([1, 1, 2]),
-                                              "seed": r.randint(0, 1000), "tol": tol, "batches": batches}})
+                                              "seed": r.randint(0, 1000), "tol": tol, "metric": metric, "batches": batches}})
     return out
 
 
